@@ -39,6 +39,7 @@ LABELS = {
     'MCLeave': lambda a: {'a': 'Leave', 'c': a[0], 'how': a[1]},
     'MCChangeCoordinator': lambda a: {'a': 'ChangeCoordinator', 'coord': a[0]},
     'MCRunSD': lambda a: {'a': 'RunSD', 'srv': a[0], 's': a[1], 'e': a[2]},
+    'MCRestore': lambda a: {'a': 'Restore', 'srv': a[0]},
     'MCGetAssignments': lambda a: {'a': 'GetAssignments', 'srv': a[0], 'c': a[1], 'd': a[2]},
 }
 GROUP_ACTS = {'CreateGroup', 'Join', 'Leave', 'ChangeCoordinator'}
@@ -74,6 +75,7 @@ def from_sim(sims, first_id, rng):
         for st in beh[1:]:
             a = dict(st['last'])
             a.pop('e', None) if a['a'] == 'GetAssignments' else None
+            a.pop('order', None)   # the real order is whatever the Go map delivers; it is recorded
             steps.append(a)
         out.append({'id': first_id + len(out), 'cfg': {'servers': SERVERS, 'streams': sorted(parts), 'parts': parts},
                     'steps': steps + sweep(['c1', 'c2', 'c3', 'c4'], rng)})
